@@ -1,6 +1,7 @@
 _Q = 'xdoctest.doctest_example:DocTest.'
 PROPERTY = {
     'id': 'C08',
+    'extra': ['bounded.c08_lines.run'],
     'contract_modules': ['doctest_example', 'util_stream', 'checker', 'doctest_part', 'runner', 'parser'],
     'functions': [_Q + 'failed_line_offset', _Q + 'failed_lineno', _Q + 'run',
                   _Q + '_post_run', _Q + '_pre_run', _Q + '_import_module', _Q + '_test_globals', _Q + '_color', _Q + '_print_captured',
@@ -25,6 +26,7 @@ PROPERTY = {
               'lines (text lines, skipped special-block parts) before its first kept part; doctest_from_parts passes lineno + that '
               'offset to DocTest(..); DocTest.__init__ stores line, index and text',
               'parse_google_docstr_examples: a block labelled at offset o of the docstring becomes a doctest at line lineno + o + 1'],
+        'B': ['the real freeform / google parsers on random docstrings: every (doctest line + part offset) points at the docstring line that holds the first source line of that part, and failed_lineno() at the statement that raised (bounded/c08_lines.py)'],
         'T': ['tb_lineno / end_lineno produced by CPython',
               "the rebasing loop of doctest_from_parts (p.line_offset -= parts[0].line_offset) is dropped from the verified region (in-place "
               "mutation of list elements); split_google_docblocks' offsets and the docstring start line found by static analysis are assumed"],
